@@ -50,9 +50,106 @@ def _dump():
     return json.loads(m.group(1))
 
 
+def _access():
+    """go/extract/cmd/vmaccess: stack-read depths and memory ranges of the execute / gas / memory-size functions, derived from the
+    SOURCE of core/vm with go/ssa. The result is a pure function of the non-test sources of core/vm (and of the extractor), so it is
+    cached under .work keyed by their hash; a different tree (scratch worktree, edited file) is re-analysed."""
+    import os, json, subprocess, hashlib, glob
+    work = os.path.join(ROOT, ".work", "gen-vmflags")
+    os.makedirs(work, exist_ok=True)
+    extract_dir = os.path.join(ROOT, "go", "extract")
+    h = hashlib.sha256()
+    files = sorted(f for f in glob.glob(os.path.join(REPO, "core", "vm", "*.go")) if not f.endswith("_test.go"))
+    files += sorted(glob.glob(os.path.join(extract_dir, "cmd", "vmaccess", "*.go"))) + [os.path.join(extract_dir, "go.mod"), os.path.join(REPO, "go.mod")]
+    for f in files:
+        h.update(os.path.basename(f).encode() + b"\0")
+        h.update(open(f, "rb").read())
+    key = h.hexdigest()[:16]
+    cache = os.path.join(work, "access-" + key + ".json")
+    if os.path.exists(cache):
+        print("gen: vmaccess result reused (core/vm source hash %s unchanged)" % key)
+        return json.load(open(cache))
+    exe = os.path.join(work, "vmaccess")
+    p = subprocess.run(["go", "build", "-o", exe, "./cmd/vmaccess"], cwd=extract_dir, env=ENV, stdout=subprocess.PIPE, stderr=subprocess.STDOUT, text=True)
+    if p.returncode != 0:
+        print(p.stdout[-3000:])
+        raise SystemExit("gen vmflags: extractor vmaccess does not build")
+    env = dict(ENV)
+    env["VERIF_REPO"] = REPO
+    p = subprocess.run([exe], cwd=work, env=env, stdout=subprocess.PIPE, stderr=subprocess.PIPE, text=True, timeout=900)
+    if p.returncode != 0:
+        print(p.stderr[-3000:])
+        raise SystemExit("gen vmflags: vmaccess failed on the tree under test (rc=%d)" % p.returncode)
+    d = json.loads(p.stdout)
+    old = sorted((fn for fn in os.listdir(work) if fn.startswith("access-")), key=lambda fn: os.path.getmtime(os.path.join(work, fn)))
+    for fn in old[:-7]:
+        os.remove(os.path.join(work, fn))
+    with open(cache, "w") as f:
+        json.dump(d, f)
+    return d
+
+
+def _opnd(o):
+    if o["const"] < 0 or o.get("back", 0) < 0:
+        raise SystemExit("gen vmflags: negative memory operand %r" % o)
+    if o["kind"] == "back":
+        return ".back %d %d" % (o.get("back", 0), o["const"])
+    return ".const %d" % o["const"]
+
+
+class _Access:
+    def __init__(self, acc):
+        if acc.get("refused"):
+            raise SystemExit("gen vmflags: vmaccess refused: " + "; ".join(acc["refused"][:5]))
+        self.funcs = {}
+        for f in acc["funcs"]:
+            if f["name"] in self.funcs:
+                raise SystemExit("gen vmflags: two analysed functions are called %s" % f["name"])
+            self.funcs[f["name"]] = f
+        self.makers = {}
+        for m in acc["makers"]:
+            k = (m["opcode"], m["field"])
+            v = (m["maker"], tuple(m["args"] or []))
+            if self.makers.setdefault(k, v) != v:
+                raise SystemExit("gen vmflags: opcode %#x gets different %s closures in different constructors" % k)
+
+    def reads(self, name, opcode, field):
+        """stack height the function needs on entry, closures instantiated with the constant arguments of their maker"""
+        if name == "":
+            return 0
+        f = self.funcs.get(name)
+        if f is None:
+            raise SystemExit("gen vmflags: %s is used by an instruction table but was not analysed by vmaccess (broken tie)" % name)
+        if f.get("stackRefused"):
+            raise SystemExit("gen vmflags: cannot analyse the stack accesses of %s: %s (broken tie)" % (name, f["stackRefused"]))
+        binding = {}
+        if f.get("params") and any(l.get("co") for l in (f.get("needs") or [])):
+            mk = self.makers.get((opcode, field))
+            if mk is None or mk[0] != name or len(mk[1]) != len(f["params"]):
+                raise SystemExit("gen vmflags: no constant arguments known for closure %s at opcode %#x (broken tie)" % (name, opcode))
+            binding = dict(zip(f["params"], mk[1]))
+        need = 0
+        for l in f.get("needs") or []:
+            v = l["c"] + sum(c * binding[p] for p, c in (l.get("co") or {}).items())
+            need = max(need, v)
+        return need
+
+    def ranges(self, name):
+        f = self.funcs[name]
+        if f.get("memRefused"):
+            raise SystemExit("gen vmflags: cannot analyse the memory accesses of %s: %s (broken tie)" % (name, f["memRefused"]))
+        out = []
+        for r in f.get("ranges") or []:
+            t = "(%s, %s)" % (_opnd(r["off"]), _opnd(r["size"]))
+            if t not in out:
+                out.append(t)
+        return out
+
+
 @generator("vmflags")
 def gen_vmflags():
     d = _dump()
+    acc = _Access(_access())
     names = d["setNames"]
     gasfns, memfns, execfns = set(), set(), set()
     for n in names:
@@ -71,6 +168,12 @@ def gen_vmflags():
             L.append(f"  | {_ctor(tname, v)}")
         L.append("deriving DecidableEq, Repr")
         L.append("")
+    L.append("/-- an integer operand of an execute function in terms of its ENTRY stack: stack.Back(k) + c, or a constant -/")
+    L.append("inductive Opnd where")
+    L.append("  | back (k c : Nat)")
+    L.append("  | const (c : Nat)")
+    L.append("deriving DecidableEq, Repr")
+    L.append("")
     L.append("structure OpF where")
     L.append("  op : Nat")
     L.append("  pops : Nat")
@@ -84,6 +187,11 @@ def gen_vmflags():
     L.append("  writes : Bool")
     L.append("  reverts : Bool")
     L.append("  returns : Bool")
+    L.append("  -- derived from the SOURCE of core/vm by go/extract/cmd/vmaccess (go/ssa):")
+    L.append("  execReads : Nat                    -- stack height the execute function needs (pops, peeks, Back/dup/swap depth, all paths)")
+    L.append("  gasReads : Nat                     -- … the gas function needs")
+    L.append("  memReads : Nat                     -- … the memory-size function needs")
+    L.append("  execRanges : List (Opnd × Opnd)    -- (offset, size) of every memory.Get/GetPtr/Set call and store[i] access of the execute function")
     L.append("deriving DecidableEq, Repr")
     L.append("")
     L.append("inductive Epoch where")
@@ -97,9 +205,11 @@ def gen_vmflags():
         L.append(f"def {n} : List OpF := [")
         rows = []
         for o in d["sets"][n]:
-            rows.append("  ⟨0x%02x, %d, %d, .%s, %d, .%s, .%s, %s, %s, %s, %s, %s⟩  -- %s" % (
+            rows.append("  ⟨0x%02x, %d, %d, .%s, %d, .%s, .%s, %s, %s, %s, %s, %s, %d, %d, %d, [%s]⟩  -- %s" % (
                 o["op"], o["pops"], o["pushes"], _ctor("GasFn", o["gasFn"]), o["constGas"] or 0, _ctor("MemFn", o["memFn"]),
-                _ctor("ExecFn", o["execFn"]), _b(o["halts"]), _b(o["jumps"]), _b(o["writes"]), _b(o["reverts"]), _b(o["returns"]), o["name"]))
+                _ctor("ExecFn", o["execFn"]), _b(o["halts"]), _b(o["jumps"]), _b(o["writes"]), _b(o["reverts"]), _b(o["returns"]),
+                acc.reads(o["execFn"], o["op"], "execute"), acc.reads(o["gasFn"], o["op"], "gasCost"), acc.reads(o["memFn"], o["op"], "memorySize"),
+                ", ".join(acc.ranges(o["execFn"])), o["name"]))
         # the comment must follow the separating comma
         fixed = []
         for i, r in enumerate(rows):
